@@ -332,6 +332,7 @@ def _work(idxs):
                 continue
             M = asmx.Machine(P, max_visits=p.max_visits, extern_ret=p.extern_ret)
             M.inline = p.inline
+            M.stop_after = getattr(p, "stop_after", {})
             finals = M.run(p.fn, init=lambda s: p.init(M, s))
             res["paths"] = len(finals)
             res["insns"] = sum(M.insn_count.values())
@@ -349,6 +350,12 @@ def _work(idxs):
                 vals = {k: model_int(model, v) for k, v in g.values.items()}
                 desc = "goal `%s` refuted %s; cex %s" % (g.name, g.note, {k: (hex(v) if isinstance(v, int) else v)
                                                                           for k, v in vals.items()})
+                if hasattr(p, "runtime_replay") and p.runtime_replay() is not None:
+                    ok, out, script = run_runtime_replay(p.runtime_replay())
+                    res["replay"] = script
+                    res["status"] = "mismatch" if ok else "violated"
+                    res["detail"] = desc + " | native: " + out
+                    break
                 rs = p.replay_sources(vals)
                 if rs is None or vals.get("__expected") is None or g.name.split("/")[0] != "value":
                     res["status"] = "violated-unreplayed"
@@ -369,6 +376,16 @@ def _work(idxs):
                     res["status"] = "violated"
                     res["detail"] = desc + " | native: got %s expected %s" % (got, exp_hex)
                 break
+        except (asmx.X87Underflow, asmx.X87Overflow) as ex:
+            rs = p.runtime_replay() if hasattr(p, "runtime_replay") else None
+            res["status"] = "violated-unreplayed"
+            res["detail"] = str(ex)
+            res["replay"] = "# %s\n%s" % (ex, p.csrc)
+            if rs is not None:
+                ok, out, script = run_runtime_replay(rs)
+                res["replay"] = script
+                res["status"] = "mismatch" if ok else "violated"
+                res["detail"] = str(ex) + " | native: " + out
         except asmx.Unmodelled as ex:
             msg = str(ex)
             if msg.startswith("ASSEMBLER-REJECT"):
@@ -394,6 +411,33 @@ def _work(idxs):
         res["secs"] = time.time() - t1
         results.append(res)
     return results
+
+
+RUNTIME_SH = r'''#!/bin/bash
+# Run-time demonstration: probe compiled by the real chibicc, observer/driver by gcc.
+# exit 0 = property held, non-zero = violation reproduced.
+set -u
+cat > "$WORK/p.c" <<'EOF_P'
+%s
+EOF_P
+cat > "$WORK/d.c" <<'EOF_D'
+%s
+EOF_D
+"$CHIBICC" -I"$CHIBICC_INCLUDE" -c -o "$WORK/p.o" "$WORK/p.c" || { echo "chibicc failed"; exit 3; }
+gcc -w -O0 -o "$WORK/t.exe" "$WORK/d.c" "$WORK/p.o" -lm || exit 4
+"$WORK/t.exe"; rc=$?; echo "exit status $rc"; exit $rc
+'''
+
+
+def run_runtime_replay(srcs):
+    """srcs = (probe_c for chibicc, driver_c for gcc); the linked program exits 0 iff the property held.
+    Returns (held, text, script)."""
+    probe_c, driver_c = srcs
+    script = RUNTIME_SH % (probe_c, driver_c)
+    kind, rc, out = native_run(probe_c, driver_c, "rt")
+    if kind != "ran":
+        return False, "%s rc=%s %s" % (kind, rc, out[-200:]), script
+    return rc == 0, "exit status %s %s" % (rc, out.strip()[-160:]), script
 
 
 def _same_result(p, got_hex, exp_hex):
